@@ -781,7 +781,7 @@ func c16Obs(o c16Outcome) (string, string) {
 	}
 }
 
-func c16Oracle(c *violations, name string, muts []string, tree *J, doc []byte, o c16Outcome, builtinOriginal []byte) {
+func c16Oracle(c *violations, name string, muts []string, tree *J, doc []byte, o c16Outcome, builtinOriginal []byte, reps int) {
 	in := map[string]any{"base": name, "mutations": muts, "document": string(doc)}
 	rs := malformed(tree)
 	// never a panic
@@ -830,6 +830,21 @@ func c16Oracle(c *violations, name string, muts []string, tree *J, doc []byte, o
 	if !bytes.Equal(o.enc1, enc2) {
 		c.add(hc.Violation{What: "the encoding is not stable: encode(decode(encode(decode d))) differs from encode(decode d)", Input: in, Observed: map[string]string{"first": trunc(string(o.enc1), 600), "second": trunc(string(enc2), 600)}})
 	} else {
+		// one and the same value (and the equal value decoded from its encoding) encodes to the same bytes every time:
+		// the tile matrices are a Go map, whose iteration order differs from call to call
+		for i := 0; i < reps; i++ {
+			v, which := o.res.Value, "the decoded value"
+			if i%2 == 1 {
+				v, which = r2.Value, "the value decoded from the encoding"
+			}
+			e, k, m := encodeTMS(v)
+			if k != "ok" || !bytes.Equal(e, o.enc1) {
+				c.add(hc.Violation{What: "the encoding is not stable: encoding " + which + " again gives other bytes (order of the tile matrices depends on map iteration order?)", Input: in,
+					Observed: map[string]any{"first": trunc(string(o.enc1), 600), fmt.Sprintf("repetition %d", i+1): trunc(string(e), 600), "kind": k + " " + m, "tile matrix ids, first": idOrder(o.enc1), "tile matrix ids, repetition": idOrder(e)},
+					Expected: "the same bytes on every one of " + strconv.Itoa(reps) + " repetitions"})
+				break
+			}
+		}
 		// equal value: nil and empty slices are the same value for every user of the API (same JSON, same length,
 		// same iteration), so they are identified before reflect.DeepEqual
 		a, b := cloneForCompare(*o.res.Value), cloneForCompare(*r2.Value)
@@ -846,11 +861,50 @@ func c16Oracle(c *violations, name string, muts []string, tree *J, doc []byte, o
 	}
 }
 
+// idOrder lists the ids of the tile matrices of an encoded document in the order they are printed.
+func idOrder(doc []byte) []string {
+	t, err := parseJ(doc)
+	if err != nil || t.Kind != jObj {
+		return nil
+	}
+	tm := t.get("tileMatrices")
+	if tm == nil || tm.Kind != jArr {
+		return nil
+	}
+	var ids []string
+	for _, m := range tm.A {
+		if m.Kind == jObj {
+			if id := m.get("id"); id != nil && id.Kind == jStr {
+				ids = append(ids, id.S)
+			}
+		}
+	}
+	return ids
+}
+
+// unsignedObject locates a tile matrix (vi < 0) or one of its variableMatrixWidths elements.
+func unsignedObject(root *J, mi, vi int) *J {
+	tm := root.get("tileMatrices")
+	if tm == nil || tm.Kind != jArr || mi >= len(tm.A) || tm.A[mi].Kind != jObj {
+		return nil
+	}
+	if vi < 0 {
+		return tm.A[mi]
+	}
+	v := tm.A[mi].get("variableMatrixWidths")
+	if v == nil || v.Kind != jArr || vi >= len(v.A) || v.A[vi].Kind != jObj {
+		return nil
+	}
+	return v.A[vi]
+}
+
+var unsignedMembers = []string{"tileWidth", "tileHeight", "matrixWidth", "matrixHeight", "coalesce", "minTileRow", "maxTileRow"}
+
 func runC16(c *hc.Ctx) error {
 	vs := newViolations(c)
 	var buf bufferedCases
-	c.Sum.Rule = "documents = the built-in documents (whole, unmutated), and their 3-matrix prefixes, the test document and 4 synthetic documents covering every optional member and the 3 CRS forms, each with 1-3 structural mutations (delete member / array element, change type, change value from pools of boundary numbers and strings, insert / duplicate array element, duplicate key, add or replace a CRS form, add a member) plus the systematic single replacement of every member of the kitchen-sink document by every pool value; distinct = distinct document text; non-trivial = mutated and (decodes, or fails for a reason other than a missing crs/tileMatrices)"
-	c.Sum.Oracle = "on the implementation (json.Unmarshal / json.Marshal of tms20.TileMatrixSet, panics recovered): never a panic; a document that an independent schema check (types, presence, positive integer sizes, 2-element points, integer-like ids, a CRS in one of three forms) calls malformed is rejected with an error; an accepted document d satisfies decode(encode(decode d)) = decode d (reflect.DeepEqual with nil and empty slices identified) and encode is byte-stable; built-in documents re-encode semantically equal (keys unordered, numbers by float64 value) to the original"
+	c.Sum.Rule = "documents = the built-in documents (whole, unmutated), and their 3-matrix prefixes, the test document and 4 synthetic documents covering every optional member and the 3 CRS forms, each with 1-3 structural mutations (delete member / array element, change type, change value from pools of boundary numbers and strings, insert / duplicate array element, duplicate key, add or replace a CRS form, add a member) plus the systematic single replacement of every member of the kitchen-sink document by every pool value, plus systematic double mutations inside one object (every tile matrix and every variableMatrixWidths element of these documents with at least two of the unsigned members tileWidth, tileHeight, matrixWidth, matrixHeight, coalesce, minTileRow, maxTileRow: every ordered pair, first member deleted / null / a string, second member -1, -3, 2.5, 1e30; quick: 1 in 24 for tile matrices, 1 in 4 for variableMatrixWidths elements), plus documents of 2, 3 and 4 tile matrices whose ids are set together to extreme values (int64 extremes, +/-6e18, +/-2^62, 0, 1, -1: fixed patterns with differences beyond 2^63 and random assignments; thorough: every ordered triple on the kitchen-sink document); distinct = distinct document text; non-trivial = mutated and (decodes, or fails for a reason other than a missing crs/tileMatrices)"
+	c.Sum.Oracle = "on the implementation (json.Unmarshal / json.Marshal of tms20.TileMatrixSet, panics recovered): never a panic; a document that an independent schema check (types, presence, positive integer sizes, 2-element points, integer-like ids, a CRS in one of three forms) calls malformed is rejected with an error; an accepted document d satisfies decode(encode(decode d)) = decode d (reflect.DeepEqual with nil and empty slices identified) and encode is byte-stable: encode(decode(encode(decode d))) = encode(decode d), and encoding the decoded value and the value decoded from its encoding again (2 times; 40 times for the documents with extreme ids) gives the same bytes every time (the tile matrices are a Go map); built-in documents re-encode semantically equal (keys unordered, numbers by float64 value) to the original"
 	c.Sum.Partial = ""
 	c.Sum.TrustedBase = []string{
 		"text -> tree: encoding/json syntax check and easyjson lexer (the model starts from the JSON tree; strings are byte strings, valid UTF-8 only)",
@@ -871,6 +925,7 @@ func runC16(c *hc.Ctx) error {
 		return err
 	}
 	seen := map[string]bool{}
+	stabilityReps := 2 // how often an accepted value is encoded again (40 for the documents with extreme tile matrix ids)
 	emit := func(name string, muts []string, tree *J, docTerm string, builtinOriginal []byte) {
 		doc := tree.bytes()
 		if builtinOriginal != nil {
@@ -896,7 +951,7 @@ func runC16(c *hc.Ctx) error {
 		} else {
 			c.Nontrivial(string(doc))
 		}
-		c16Oracle(vs, name, muts, tree, doc, o, builtinOriginal)
+		c16Oracle(vs, name, muts, tree, doc, o, builtinOriginal, stabilityReps)
 		desc := map[string]any{"base": name, "mutations": muts, "document": trunc(string(doc), 3000), "observed": kind}
 		if kind == "error" {
 			desc["error"] = trunc(o.res.Msg, 300)
@@ -989,6 +1044,152 @@ func runC16(c *hc.Ctx) error {
 			continue
 		}
 		emit(b.name, muts, t, "(DLit "+t.coq()+")", nil)
+	}
+	// 5. systematic DOUBLE mutations inside one object: of every tile matrix and every variableMatrixWidths element
+	// that has at least two of the unsigned members, every ordered pair (first member deleted / null / a string,
+	// second member negative, fractional or huge).  The second member alone makes the document malformed; the first
+	// one must not keep the decoder from looking at it.
+	{
+		firsts := []struct {
+			name string
+			f    func(o *J, k string)
+		}{
+			{"delete", func(o *J, k string) { o.del(k) }},
+			{"null", func(o *J, k string) { o.set(k, jnull()) }},
+			{"string", func(o *J, k string) { o.set(k, jstr("7")) }},
+		}
+		seconds := []string{"-1", "-3", "2.5", "1e30"}
+		cntM, cntV := 0, 0
+		for _, b := range small {
+			tm := b.tree.get("tileMatrices")
+			if tm == nil || tm.Kind != jArr {
+				continue
+			}
+			type ref struct{ mi, vi int }
+			var refs []ref
+			for mi, m := range tm.A {
+				if m.Kind != jObj {
+					continue
+				}
+				refs = append(refs, ref{mi, -1})
+				if v := m.get("variableMatrixWidths"); v != nil && v.Kind == jArr {
+					for vi := range v.A {
+						refs = append(refs, ref{mi, vi})
+					}
+				}
+			}
+			for _, r := range refs {
+				obj := unsignedObject(b.tree, r.mi, r.vi)
+				if obj == nil {
+					continue
+				}
+				var have []string
+				for _, k := range unsignedMembers {
+					if v := obj.get(k); v != nil && v.Kind == jNum {
+						have = append(have, k)
+					}
+				}
+				if len(have) < 2 {
+					continue
+				}
+				path := fmt.Sprintf("$.tileMatrices[%d]", r.mi)
+				every, cnt := 24, &cntM
+				if r.vi >= 0 {
+					path += fmt.Sprintf(".variableMatrixWidths[%d]", r.vi)
+					every, cnt = 4, &cntV
+				}
+				if !c.Quick() {
+					every = 1
+				}
+				for _, k1 := range have {
+					for _, k2 := range have {
+						if k1 == k2 {
+							continue
+						}
+						for _, f := range firsts {
+							for _, v2 := range seconds {
+								*cnt++
+								if *cnt%every != int(c.Seed%int64(every)) {
+									continue
+								}
+								t := b.tree.clone()
+								o := unsignedObject(t, r.mi, r.vi)
+								f.f(o, k1)
+								o.set(k2, jnum(v2))
+								c.Count("double mutation inside one object")
+								emit(b.name, []string{f.name + " " + path + "." + k1, "revalue " + path + "." + k2 + " := " + v2}, t, "(DLit "+t.coq()+")", nil)
+							}
+						}
+					}
+				}
+			}
+		}
+	}
+	// 6. extreme tile matrix ids, several in one document (the int64 extremes, +/-6e18, +/-2^62 and small ones): ids
+	// whose differences do not fit an int64.  Every accepted document is encoded 40 more times (the value and the value
+	// decoded from its encoding in turn): always the same bytes.
+	{
+		extremes := []string{"6000000000000000000", "-6000000000000000000", "9223372036854775807", "-9223372036854775808", "0", "1", "-1", "4611686018427387904", "-4611686018427387904"}
+		var xb []baseDoc
+		for _, b := range small {
+			if b.name == "sink" || b.name == "sinkWKT" || b.name == "sinkURN" {
+				xb = append(xb, b)
+			}
+		}
+		for _, b := range full {
+			if b.name == "WebMercatorQuad" || b.name == "CDB1GlobalGrid" || b.name == "NetherlandsRDNewQuad" {
+				xb = append(xb, baseDoc{b.name + "[:4]", truncateMatrices(b.tree, 4)}, baseDoc{b.name + "[:3]", truncateMatrices(b.tree, 3)})
+			}
+		}
+		fixed := map[int][][]int{
+			2: {{2, 6}, {6, 2}, {2, 3}, {0, 1}, {3, 5}, {1, 2}},
+			3: {{0, 4, 1}, {4, 0, 1}, {1, 0, 4}, {2, 4, 3}, {2, 6, 3}, {3, 2, 4}, {7, 1, 2}, {0, 8, 3}},
+			4: {{0, 4, 1, 5}, {2, 3, 4, 6}, {5, 0, 6, 1}, {8, 2, 7, 3}},
+		}
+		stabilityReps = 40
+		assign := func(b baseDoc, pick []int) {
+			t := b.tree.clone()
+			tm := t.get("tileMatrices")
+			var muts []string
+			for i, m := range tm.A {
+				if i < len(pick) && m.Kind == jObj {
+					m.set("id", jstr(extremes[pick[i]]))
+					muts = append(muts, fmt.Sprintf("revalue $.tileMatrices[%d].id := %q", i, extremes[pick[i]]))
+				}
+			}
+			c.Count("extreme tile matrix ids in one document")
+			emit(b.name, muts, t, "(DLit "+t.coq()+")", nil)
+		}
+		for _, b := range xb {
+			tm := b.tree.get("tileMatrices")
+			if tm == nil || tm.Kind != jArr || len(tm.A) < 2 {
+				continue
+			}
+			k := len(tm.A)
+			for _, pick := range fixed[k] {
+				assign(b, pick)
+			}
+			n := c.N(12, 150)
+			if c.Search {
+				n *= 4
+			}
+			if !c.Quick() && b.name == "sink" {
+				// every ordered triple of distinct extremes
+				for i := range extremes {
+					for j := range extremes {
+						for l := range extremes {
+							if i != j && j != l && i != l {
+								assign(b, []int{i, j, l})
+							}
+						}
+					}
+				}
+			}
+			for i := 0; i < n; i++ {
+				assign(b, c.Rng.Perm(len(extremes))[:k])
+			}
+		}
+		stabilityReps = 2
 	}
 	buf.flush(c, "Texel.Corr.C16", "theories/Corr/C16.v", 16)
 	return nil
